@@ -180,7 +180,7 @@ def generic_job(agg, job, tier, seed):
     binp = build(job.get("build", "all"))
     args = [str(a) for a in job["args"][0 if tier == "quick" else 1]]
     timeout = job.get("timeout", (300, 1800))[0 if tier == "quick" else 1]
-    cmd = [binp, job["engine"], "--prop", job.get("prop_filter", prop), "--seed", str(seed)] + args
+    cmd = [binp, job["engine"], "--prop", job.get("prop_filter", prop), "--seed", str(seed + job.get("seed_off", 0))] + args
     t = time.time()
     rc, out, err = run_proc(cmd, timeout=timeout)
     d = last_json(out)
@@ -218,24 +218,42 @@ def S(profiles, q, t, build="all", **kw):
     return d
 
 
+def M(profiles, q, t, build="all", **kw):
+    """real-thread engine: seconds of wall budget (quick, thorough)"""
+    d = {"engine": "mt", "build": build, "args": (["--profiles", ",".join(profiles), "--secs", q], ["--profiles", ",".join(profiles), "--secs", t, "--failpoints", 1]),
+         "timeout": (q + 240, t + 600)}
+    if kw.pop("fp_quick", False):
+        d["args"] = (d["args"][0] + ["--failpoints", 1], d["args"][1])
+    d.update(kw)
+    return d
+
+
+def P(mode, n=None):
+    a = ["--mode", mode] + (["--n", n] if n else [])
+    return {"engine": "probe", "build": "all", "args": (a, a), "timeout": (120, 120)}
+
+
+LAWS = {"engine": "laws", "build": "all", "args": ([], []), "timeout": (120, 120)}
+
 PLANS = {
-    "C01": [S(["traffic", "backpressure", "refs"], 6000, 150000), S(["traffic", "backpressure", "kill"], 3000, 60000, build="none", seed_off=1000)],
-    "C02": [S(["traffic", "backpressure", "idle"], 6000, 150000), S(["traffic", "backpressure"], 3000, 60000, build="none", seed_off=1000)],
-    "C03": [S(["traffic", "lifecycle", "kill", "faults", "timeouts"], 4000, 100000), S(["kill", "lifecycle", "backpressure"], 3000, 60000, build="none", seed_off=1000)],
+    "C01": [M(["general"], 6, 60), S(["traffic", "backpressure", "refs"], 6000, 150000), S(["traffic", "backpressure", "kill"], 3000, 60000, build="none", seed_off=1000)],
+    "C02": [M(["general", "blocking"], 6, 60), S(["traffic", "backpressure", "idle"], 6000, 150000), S(["traffic", "backpressure"], 3000, 60000, build="none", seed_off=1000)],
+    "C03": [M(["tightrace"], 12, 150, fp_quick=True), M(["deathrace", "general"], 6, 60), S(["traffic", "lifecycle", "kill", "faults", "timeouts"], 4000, 100000), S(["kill", "lifecycle", "backpressure"], 3000, 60000, build="none", seed_off=1000)],
     "C04": [S(["lifecycle", "kill", "faults"], 6000, 150000), S(["lifecycle", "kill"], 3000, 60000, build="none", seed_off=1000)],
-    "C05": [S(["lifecycle", "faults", "kill"], 6000, 150000), S(["lifecycle", "faults"], 3000, 60000, build="none", seed_off=1000)],
-    "C06": [S(["kill", "backpressure", "lifecycle"], 6000, 150000), S(["kill", "refs"], 4000, 60000, build="none", seed_off=1000)],
+    "C05": [LAWS, S(["lifecycle", "faults", "kill"], 6000, 150000), S(["lifecycle", "faults"], 3000, 60000, build="none", seed_off=1000)],
+    "C06": [M(["general", "deathrace"], 6, 60), S(["kill", "backpressure", "lifecycle"], 6000, 150000), S(["kill", "refs"], 4000, 60000, build="none", seed_off=1000)],
     "C07": [S(["refs", "idle", "lifecycle"], 6000, 150000), S(["refs", "idle"], 3000, 60000, build="none", seed_off=1000)],
     "C08": [S(["idle", "kill", "traffic"], 6000, 150000), S(["idle", "kill"], 3000, 60000, build="none", seed_off=1000)],
-    "C09": [S(["backpressure", "traffic"], 8000, 200000), S(["backpressure"], 4000, 80000, build="none", seed_off=1000)],
-    "C10": [S(["timeouts", "kill"], 8000, 200000), S(["timeouts"], 4000, 80000, build="none", seed_off=1000)],
-    "C11": [S(["refs", "lifecycle", "traffic"], 6000, 150000), S(["refs", "kill"], 3000, 60000, build="none", seed_off=1000)],
+    "C09": [P("default"), P("set", 5), P("set", 1), P("spawn-then-set", 3), P("zero"), S(["backpressure", "traffic"], 8000, 200000), S(["backpressure"], 4000, 80000, build="none", seed_off=1000)],
+    "C10": [LAWS, M(["blocking"], 6, 60), S(["timeouts", "kill"], 8000, 200000), S(["timeouts"], 4000, 80000, build="none", seed_off=1000)],
+    "C11": [M(["spawnstorm"], 4, 40), S(["refs", "lifecycle", "traffic"], 6000, 150000), S(["refs", "kill"], 3000, 60000, build="none", seed_off=1000)],
     "C12": [S(["faults"], 10000, 250000), S(["deadlock"], 5000, 100000), S(["faults"], 4000, 80000, build="none", seed_off=1000)],
-    "C13": [S(["traffic", "timeouts", "kill", "faults", "lifecycle"], 4000, 100000), S(["timeouts", "kill"], 3000, 60000, build="none", seed_off=1000)],
+    "C13": [M(["general", "blocking", "deathrace"], 9, 90), S(["traffic", "timeouts", "kill", "faults", "lifecycle"], 4000, 100000), S(["timeouts", "kill"], 3000, 60000, build="none", seed_off=1000)],
     "C14": [S(["deadlock"], 16000, 400000, perts=(2, 4))],
     "C15": [S(["deadlock"], 16000, 400000, perts=(2, 4), seed_off=500), S(["traffic", "faults"], 3000, 60000)],
     "C16": [S(["traffic", "refs", "timeouts", "kill", "lifecycle", "backpressure", "idle", "faults"], 2500, 60000, mode="diff"), S(["refs", "traffic", "kill"], 2000, 40000, mode="diff", build="none", seed_off=1000)],
-    "C20": [S(["metrics", "traffic", "kill", "faults"], 5000, 120000)],
+    "C20": [M(["readers"], 6, 60), S(["metrics", "traffic", "kill", "faults"], 5000, 120000)],
+    "C17": [M(["blocking"], 8, 90), M(["general"], 6, 60, seed_off=77)],
 }
 
 # minimum number of non-vacuous evaluations of the key clauses below which a run is inconclusive
@@ -256,12 +274,17 @@ FLOORS = {
     "C14": {"C14.detect": 1000},
     "C15": {"C15.sound": 3000, "C15.residue": 5000},
     "C16": {"C16.equal_traces": 1000},
+    "C17": {"C17.deadline": 40, "C17.inside_runtime": 20, "C17.deprecated_ignores_timeout": 10, "C17.dead_actor": 60},
     "C20": {"C20.sample": 1000, "C20.max_lower_bound": 300},
 }
 
 LEVEL = {"C12": "fault_enumeration"}
 
 RULES = {
+    "mt": "MT: real-thread rounds on multi-thread tokio runtimes (worker counts 4/16/32, async + spawn_blocking + std-thread clients, termination at a random instant, heartbeat-guarded watchdogs); "
+    "one execution = one round; distinct = distinct hashes of the round's order-insensitive event projection (tight death-race rounds: distinct parameter tuples).",
+    "laws": "LAWS: exhaustive enumeration of all 18 ActorResult shapes and one value of each of the 7 Error variants against an independent expectation table.",
+    "probe": "PROBE: fresh-process probes of the once-per-process default-capacity configuration (each mode is one execution).",
     "sim": "SIM: seeded scenario generator (profiles listed under engines) executed on a fresh single-thread paused-clock tokio runtime running the real rsactor code; "
     "an execution is non-trivial for this property if at least one clause of the property was evaluated non-vacuously on its event log; "
     "distinct = distinct hashes of the canonical event trace (virtual time stamps, all client/hook/lifecycle events, ids renumbered) per feature build.",
